@@ -37,20 +37,31 @@ type c16State struct {
 	u2Server, u2AE, u2Policy                string
 	hasS3, hasL3, hasCp2, hasBest, hasC3    bool
 	cpGzip                                  uint
+	cpKeys                                  string // which level keys the cp profile carries: both | gzip | br
+	c2Size                                  int
+	c2Store                                 string
 }
 
 func (st *c16State) config() Config {
 	c := Config{}
-	c.Compresses = []CompressCfg{{Name: "cp", Levels: map[string]uint{"gzip": st.cpGzip, "br": 5}}}
+	lv := map[string]uint{}
+	if st.cpKeys != "br" {
+		lv["gzip"] = st.cpGzip
+	}
+	if st.cpKeys != "gzip" {
+		lv["br"] = 2
+	}
+	c.Compresses = []CompressCfg{{Name: "cp", Levels: lv}}
 	if st.hasCp2 {
 		c.Compresses = append(c.Compresses, CompressCfg{Name: "cp2", Levels: map[string]uint{"gzip": 1, "br": 1}})
 	}
 	if st.hasBest {
 		c.Compresses = append(c.Compresses, CompressCfg{Name: "bestCompression", Levels: map[string]uint{"gzip": 1, "br": 1}})
 	}
-	c.Caches = []CacheCfg{{Name: "c1", Size: 1000, HitForPass: "1s"}, {Name: "c2", Size: 1000, HitForPass: "1s"}}
+	c.Caches = []CacheCfg{{Name: "c1", Size: 1000, HitForPass: "1s"}, {Name: "c2", Size: st.c2Size, HitForPass: "1s", Store: st.c2Store}}
 	if st.hasC3 {
-		c.Caches = append(c.Caches, CacheCfg{Name: "c3", Size: 500, HitForPass: "2s"})
+		// shares the store of c2 (one store URL may back several caches)
+		c.Caches = append(c.Caches, CacheCfg{Name: "c3", Size: 500, HitForPass: "2s", Store: st.c2Store})
 	}
 	c.Upstreams = []UpstreamCfg{
 		{Name: "u1", Policy: "first", Servers: []UpstreamSrv{{Addr: "http://" + originA}}},
@@ -117,6 +128,11 @@ func (st *c16State) mutate(g *Gen) string {
 		}
 		return "s2.compress=" + st.s2Compress
 	case 3:
+		if st.hasC3 && g.p(0.4) {
+			st.hasC3 = false
+			st.s2Cache = "c2"
+			return "c3=false"
+		}
 		st.s2Cache = pick(g, "c2", "c3")
 		if st.s2Cache == "c3" {
 			st.hasC3 = true
@@ -159,7 +175,8 @@ func (st *c16State) mutate(g *Gen) string {
 		return fmt.Sprintf("bestCompression-override=%v", st.hasBest)
 	case 14:
 		st.cpGzip = uint(pick(g, 1, 6, 9))
-		return fmt.Sprintf("cp.gzip=%d", st.cpGzip)
+		st.cpKeys = pick(g, "both", "both", "gzip", "br")
+		return fmt.Sprintf("cp.gzip=%d,cp.keys=%s", st.cpGzip, st.cpKeys)
 	default:
 		st.l2Timeout = pick(g, "", "3s")
 		return "l2.timeout=" + st.l2Timeout
@@ -169,7 +186,15 @@ func (st *c16State) mutate(g *Gen) string {
 func genC16(g *Gen) *Plan {
 	p := &Plan{Profile: "C16", Seed: g.Seed, Policy: g.policy(), ClockMenuMs: []int{300, 1000}, ClockWeight: pick(g, 0.0, 0.02), MaxSteps: 8000}
 	st := &c16State{s2MinLen: pick(g, "", "100", "2kb"), s2Filter: pick(g, "", "json"), s2Compress: "cp", s2Cache: "c2", s2Locs: []string{"l2"},
-		l2Upstream: "u2", u2Server: originB, u2Policy: "first", cpGzip: 6}
+		l2Upstream: "u2", u2Server: originB, u2Policy: "first", cpGzip: 6, cpKeys: "both", c2Size: 1000}
+	if g.p(0.4) {
+		st.c2Store = storeURL
+		st.c2Size = pick(g, 8, 8, 1000)
+		p.InlineStore = true
+		if st.c2Size == 8 {
+			p.ShardMode = "one"
+		}
+	}
 	for i := 0; i < g.n(0, 4); i++ {
 		st.mutate(g)
 	}
@@ -252,6 +277,10 @@ func genC16(g *Gen) *Plan {
 		addr := pick(g, srvAddr, srvAddr2, srvAddr2, srvAddr2, srvAddr3)
 		battery = append(battery, probe{addr, uri, pick(g, "", "gzip", "br", "gzip, br")})
 		r := Reply{Status: 200, Size: size, Class: "fixed", CType: ctype, Header: [][2]string{{"Cache-Control", "max-age=600"}}}
+		if g.p(0.3) {
+			// uncacheable: compressed per request with the server's own profile and levels
+			r.Header = [][2]string{{"Cache-Control", "no-cache"}}
+		}
 		if g.p(0.2) {
 			r.Enc = pick(g, "gzip", "br", "lz4")
 		}
@@ -260,6 +289,9 @@ func genC16(g *Gen) *Plan {
 	emit := func(phase string) {
 		for i, pb := range battery {
 			for rep := 0; rep < 2; rep++ {
+				if rep == 2 {
+					break
+				}
 				op := reqOp("GET", hostA, pb.uri)
 				op.Addr = pb.addr
 				if pb.ae != "" {
@@ -271,9 +303,25 @@ func genC16(g *Gen) *Plan {
 			}
 		}
 	}
+	// third round: every probe once more after the whole battery (with a small LRU the entries
+	// have been evicted meanwhile and come back from the store, if there is one)
+	again := func(phase string) {
+		for i, pb := range battery {
+			op := reqOp("GET", hostA, pb.uri)
+			op.Addr = pb.addr
+			if pb.ae != "" {
+				op.Header = append(op.Header, [2]string{"Accept-Encoding", pb.ae})
+			}
+			op.Tag = fmt.Sprintf("%s:%d:2", phase, i)
+			op.Barrier = true
+			p.Ops = append(p.Ops, op)
+		}
+	}
 	emit("live")
-	p.Ops = append(p.Ops, Op{Kind: OpStop, Barrier: true})
+	again("live")
+	p.Ops = append(p.Ops, Op{Kind: OpStop, Barrier: true, Wipe: true})
 	emit("fresh")
+	again("fresh")
 	return p
 }
 
@@ -287,10 +335,16 @@ func obsVector(o *Outcome, v *View) string {
 		return v.Kind
 	}
 	res := r.Res
-	fmt.Fprintf(&b, "status=%d label=%s enc=%q len=%d", res.Status, v.XStatus, res.Header.Get("Content-Encoding"), len(res.Body))
+	label := v.XStatus
+	if label == "hitForPass" {
+		// fetching vs hit-for-pass only depends on how much simulated time lies between two
+		// requests of an uncacheable key: both are forwarded, that is what is compared
+		label = "fetching"
+	}
+	fmt.Fprintf(&b, "status=%d label=%s enc=%q len=%d", res.Status, label, res.Header.Get("Content-Encoding"), len(res.Body))
 	var hs []string
 	for k, vs := range res.Header {
-		if k == "X-Sim-Echo" || k == "Age" || k == "Content-Length" {
+		if k == "X-Sim-Echo" || k == "Age" || k == "Content-Length" || k == "X-Status" {
 			continue
 		}
 		hs = append(hs, k+"="+strings.Join(vs, ","))
